@@ -245,12 +245,30 @@ def gen_cases(rng, tier):
         for text in ("r.n not in [1]", "1 not in r.nums"):
             cases.append({"kind": "read", "adapter": adapter, "records": recs, "layout": _gen_layout(r, adapter, n),
                           "selector": text, "form": "text", "shuffle": 7, "premade": "compiled"})
+            for form in ("compiled", "interp"):
+                cases.append({"kind": "read", "adapter": adapter, "records": recs, "layout": [], "selector": text, "form": form,
+                              "shuffle": 7})
     # a CSV file with an empty line, read with selectors that are TRUE for a record whose fields are all unset
     for text in ("r.n is None", "not r.s", "r.s != 'a'", "not r.missing", "r.n is None or r.n > 2"):
         for form in ("text", "compiled"):
             recs = _gen_records(r, "csvfile", 5)
             cases.append({"kind": "read", "adapter": "csvfile", "records": recs, "layout": [["blank", r.randint(1, 5)]],
                           "selector": text, "form": form, "shuffle": 11})
+    # records that COMPARE EQUAL (and hash alike) although a selector can tell them apart: one instant under two UTC
+    # offsets, 0.0 and -0.0 - a verdict belongs to the record at hand, not to whatever equals it
+    G1 = {"_generated": ["dt", [2020, 1, 2, 3, 4, 5, 0], "utc", 0]}
+    tsa = ["dt", [2021, 3, 4, 12, 30, 15, 0], "utc", 0]
+    tsb = ["dt", [2021, 3, 4, 14, 30, 15, 0], ["fixed", 7200, 0], 0]
+    mkA = lambda ts: ["rec", FAM_A, [V.I(0), V.I(1), V.I(1), V.S("a"), ["bool", 1], ts, ["list", []], ["list", []]], G1]   # noqa: E731
+    mkB = lambda f: ["rec", FAM_B, [V.I(0), V.S("a"), f, V.B(b"x"), V.I(80)], G1]                                            # noqa: E731
+    twins = [([mkA(tsa), mkA(tsb), mkA(tsa), mkA(tsb)], ["r.ts.hour == 14", "r.ts.hour == 12", "str(r.ts) > '2021-03-04 13'"]),
+             ([mkA(tsb), mkA(tsa)], ["r.ts.hour == 14", "r.ts.hour != 14"]),
+             ([mkB(V.F(0.0)), mkB(["float", "8000000000000000"]), mkB(V.F(0.0))], ["str(r.f) == '-0.0'", "str(r.f) == '0.0'"])]
+    for recs_, texts in twins:
+        for text in texts:
+            for form in ("text", "compiled", "interp"):
+                cases.append({"kind": "read", "adapter": "stream", "records": recs_, "layout": [], "selector": text, "form": form,
+                              "shuffle": 9})
     # a grouped record in the MIDDLE of a stream (unpacking it makes the library visit its members' descriptors), with
     # selectors that resolve fields by type: what a descriptor's fields are does not change along the way
     for text in ("Type.string == 'src'", "'src' in Type.string", "has_field(r, '_source')", "any(f.name == '_source' for f in fields('string'))",
@@ -730,6 +748,19 @@ def run_real(case):
                     pass
             plain, perr, pstage = _drain(lambda: RecordReader(url))
             withsel, werr, wstage = _drain(lambda: RecordReader(url, selector=_mk_selector(form, text)))
+            # the same source through record_stream() (what rdump iterates), handed the same kind of selector object
+            rs_idx, rs_err = None, None
+            if werr is None and adapter in ("stream", "jsonfile"):
+                import logging
+
+                from flow.record.stream import record_stream
+                logging.disable(logging.CRITICAL)
+                try:
+                    rs_idx = [_idx(x) for x in record_stream([url], _mk_selector(form, text))]
+                except Exception as e:          # noqa: BLE001
+                    rs_err = type(e).__name__
+                finally:
+                    logging.disable(logging.NOTSET)
             # the consumer that filters afterwards: one selector object, reused over the records read without selector
             post, posterr = [], perr
             csel = _matcher_obj(form, text)
@@ -748,7 +779,7 @@ def run_real(case):
 
             return {"plain": side(plain, perr, pstage), "withsel": side(withsel, werr, wstage),
                     "post": side(post, posterr), "fresh": fresh, "impure": impure, "orders": orders,
-                    "threaded": threaded, "items": items}
+                    "threaded": threaded, "items": items, "rs_idx": rs_idx, "rs_err": rs_err}
         finally:
             shutil.rmtree(d, ignore_errors=True)
     raise ValueError(k)
@@ -787,6 +818,11 @@ def oracle(case, obs):
         if w["obs"] != p["obs"] or w["idx"] != p["idx"]:
             return (f"{case['adapter']}: reading with selector {case['selector']!r} ({case['form']}) yields records "
                     f"{w['idx']} but reading without and filtering afterwards keeps {p['idx']}")
+        if obs.get("rs_err"):
+            return f"{case['adapter']}: record_stream with selector {case['selector']!r} ({case['form']}) raised {obs['rs_err']}"
+        if obs.get("rs_idx") is not None and w["err"] is None and obs["rs_idx"] != w["idx"]:
+            return (f"{case['adapter']}: record_stream handed the selector {case['selector']!r} ({case['form']}) yields records "
+                    f"{obs['rs_idx']}, the reader handed the same selector yields {w['idx']}")
         if w["err"] != p["err"]:
             return (f"{case['adapter']}: reading with selector ends with {w['err']} but reading without and filtering "
                     f"afterwards ends with {p['err']}")
